@@ -25,8 +25,12 @@ RULE = ("seeded random programs: a function, a class with 0-3 methods, a list of
         "by option, positionally, by --config (inline JSON or file, at the level itself or as a section of an enclosing "
         "level, the section of one subcommand also split over two --config options), the empty string as a str value, repeated (last wins) or omitted, in shuffled order, plus ~20% invalid lines (unknown option/key, wrong "
         "type, missing required, extra word, unknown/missing subcommand, --config where the level has none). "
-        "Non-trivial = the call happened with at least one parameter bound to a given value; distinct = distinct "
+        "History: all programs of a runner process are imported in sequence under the same module name (same module.qualname "
+        "for different classes / functions). Non-trivial = the call happened with at least one parameter bound to a given value; distinct = distinct "
         "(program, command line).")
+HISTORY = ("each of the 16 runner processes executes its ~150 (quick) / ~2500 (thorough) programs one after the other under ONE "
+           "module name, so successive classes and functions share module.qualname while their methods and signatures differ: "
+           "whatever auto_cli remembers from an earlier call must not leak into a later one")
 TRUSTED = [
     "Coq 8.16.1 kernel + vm_compute",
     "tie/impl/c12_cli.py (generated module source, the callee's record of its arguments, classification of exits) and the Gallina printer",
@@ -44,6 +48,9 @@ ASSUMPTIONS = [
     "the only dataclass is Point(x: int = 0, y: int = 0); a dataclass value is always given whole (both fields: as one JSON "
     "argv value, as --k.x/--k.y side by side, or as a config section), because partial assignments merge field-wise; a "
     "wrong-typed scalar for a dataclass group is generated on argv only (inside a --config it is validated lazily, C02)",
+    "the subcommand is always chosen on the command line; a level whose subcommand is named by the config (`subcommand` key or "
+    "inferred from the sections) and --config sections for siblings of the chosen subcommand are property C17's subject "
+    "(selection and pruning of sibling sections at every nesting level) and are not generated here",
     "not generated (model answers EUnmodelled): constructor parameter named subcommand of a class with methods, or named like a method, subcommand named "
     "config, --config sections for a subcommand other than the chosen one, subcommand chosen by the config (C17)",
 ]
@@ -631,7 +638,9 @@ def category(case, obs):
 
 
 def describe(case, obs):
-    return {"program": _program_src(case["components"]), "as_positional": case["as_pos"],
+    return {"history": "every runner process imports its programs one after the other under the single module name "
+                       "`jvprog` (same module.qualname for successive classes/functions); replayed alone the case has no history",
+            "program": _program_src(case["components"]), "as_positional": case["as_pos"],
             "argv": obs.get("argv"), "tokens": case["toks"],
             "observed": {k: v for k, v in obs.items() if k != "argv"}}
 
@@ -674,6 +683,22 @@ def shrink(case):
             h3[k3] = h3[k3][:j] + h3[k3][j + 1:]
             if not any(t[0] == "opt" and t[1] == gone for t in c3["toks"]):
                 yield c3
+
+
+def search(rng, tier, broken):
+    """Failing-input search after a broken proof / tie: ONE fresh quick-sized batch (bounded, ~a quick run)."""
+    import sys
+    from tie import framework
+    mod = sys.modules[__name__]
+    extra = generate(rng, "quick")
+    eo = observe(extra)
+    _bm, bi, bo = framework.judge_cases(mod, extra, eo, tag="x")
+    known = framework.load_known_findings(PROP)
+    bad = sorted(set(bi) | {i for i, k in bo if FINDING_CLASSES.get(k) not in known})
+    if not bad:
+        return None
+    i = bad[0]
+    return {"case": extra[i], "observed": eo[i], "explain": describe(extra[i], eo[i])}
 
 
 META = {
